@@ -10,12 +10,14 @@ import (
 	authtypes "github.com/cosmos/cosmos-sdk/x/auth/types"
 	govtypes "github.com/cosmos/cosmos-sdk/x/gov/types"
 	"github.com/ethereum/go-ethereum/common"
+	"github.com/ethereum/go-ethereum/crypto"
 	"pgregory.net/rapid"
 
 	cpckeeper "github.com/EscanBE/evermint/v12/x/cpc/keeper"
 	cpctypes "github.com/EscanBE/evermint/v12/x/cpc/types"
 
 	"verif/harness/chain"
+	"verif/harness/evmgen"
 )
 
 // C17 — Custom-precompile registry integrity and exact EVM exposure.
@@ -123,9 +125,40 @@ var (
 	selBech32Prefix = unhexS(packBech32("bech32AccountAddrPrefix"))
 )
 
+// c17ProberAddr is a contract that reaches a configured address from inside the EVM: a message with exactly
+// 64 bytes of call data stores (target, selector word); any other message (empty call data, a value transfer, other
+// call data) CALLs target with the 4-byte selector and returns (success word, return data of the inner call).
+var c17ProberAddr = common.HexToAddress("0xc170000000000000000000000000000000009be1")
+
+func c17ProberCode() string {
+	a := evmgen.NewAsm()
+	a.Op(evmgen.CALLDATASIZE).PushU(64).Op(evmgen.EQ).PushLabel("cfg").Op(evmgen.JUMPI)
+	a.PushU(1).Op(evmgen.SLOAD).PushU(0).Op(evmgen.MSTORE)
+	a.PushU(0).PushU(0).PushU(4).PushU(0).PushU(0).PushU(0).Op(evmgen.SLOAD).Op(evmgen.GAS).Op(evmgen.CALL)
+	a.PushU(0).Op(evmgen.MSTORE)
+	a.Op(evmgen.RETURNDATASIZE).PushU(0).PushU(32).Op(evmgen.RETURNDATACOPY)
+	a.Op(evmgen.RETURNDATASIZE).PushU(32).Op(evmgen.ADD).PushU(0).Op(evmgen.RETURN)
+	a.Label("cfg")
+	a.PushU(0).Op(evmgen.CALLDATALOAD).PushU(0).Op(evmgen.SSTORE)
+	a.PushU(32).Op(evmgen.CALLDATALOAD).PushU(1).Op(evmgen.SSTORE).Op(evmgen.STOP)
+	return hex.EncodeToString(a.Bytes())
+}
+
+// c17CreateProbe is init code that calls target with the selector and deploys the returned bytes as runtime code:
+// the created account has code exactly when the call returned data.
+func c17CreateProbe(target common.Address, sel []byte) string {
+	a := evmgen.NewAsm()
+	a.PushBytes(sel).PushU(224).Op(evmgen.SHL).PushU(0).Op(evmgen.MSTORE)
+	a.PushU(0).PushU(0).PushU(4).PushU(0).PushU(0).PushBytes(target.Bytes()).Op(evmgen.GAS).Op(evmgen.CALL).Op(evmgen.POP)
+	a.Op(evmgen.RETURNDATASIZE).PushU(0).PushU(0).Op(evmgen.RETURNDATACOPY)
+	a.Op(evmgen.RETURNDATASIZE).PushU(0).Op(evmgen.RETURN)
+	return hex.EncodeToString(a.Bytes())
+}
+
 func runC17(cs c17Case) *Outcome {
 	o := &Outcome{}
 	w := chain.World{GenesisTime: 1700000000, NumVals: 1, BaseFee: "0", MinGasPrice: "0", MaxGas: -1, Erc20Native: cs.Erc20Native, StakingCpc: cs.StakingCpc, Deployers: cs.Deployers}
+	w.Contracts = append(w.Contracts, chain.GenContract{Addr: c17ProberAddr.Hex(), Code: c17ProberCode(), Nonce: 1, Balance: "0"})
 	for i := 0; i < 4; i++ {
 		w.Accounts = append(w.Accounts, chain.GenAccount{Key: i, Coins: map[string]string{chain.Denom: eoaFunds, chain.SecondDenom: "1000", "ubar": "55",
 			"ibc/27394FB092D2ECCD56123C74F36E4C1F926001CEADA9CA97EA622B25F41E5EB2": "9"}})
@@ -352,7 +385,51 @@ func runC17(cs c17Case) *Outcome {
 						callableD = true
 					}
 				}
-				for mode, got := range map[string]bool{"query": callableQ, "deliver": callableD} {
+				// the same address reached from inside the EVM, in every shape of outer message: a contract run by a
+				// message without call data, by a value transfer, by a message with call data, and init code of a creation
+				cfg := hex.EncodeToString(append(common.LeftPadBytes(addr.Bytes(), 32), common.RightPadBytes(sel, 32)...))
+				_, k3seq, _ := c.AccountInfo(c.CommittedCtx(), chain.K(3).Acc())
+				nrecs := runBlockPlans(c, []BlockPlan{{Dt: 3, Txs: []TxPlan{
+					{Kind: "eth", From: 3, Type: 0, Gas: 300000, CapOver: 1, To: c17ProberAddr.Hex(), Value: "0", Data: cfg},
+					{Kind: "eth", From: 3, Type: 0, Gas: 500000, CapOver: 1, To: c17ProberAddr.Hex(), Value: "0"},
+					{Kind: "eth", From: 3, Type: 0, Gas: 500000, CapOver: 1, To: c17ProberAddr.Hex(), Value: "1"},
+					{Kind: "eth", From: 3, Type: 0, Gas: 500000, CapOver: 1, To: c17ProberAddr.Hex(), Value: "0", Data: "00"},
+					{Kind: "eth", From: 3, Type: 0, Gas: 3000000, CapOver: 1, Value: "0", Data: c17CreateProbe(addr, sel)},
+				}}}, nil)
+				if nrecs[0].Err != nil {
+					o.dev("", "step %d: nested probe block failed: %v", si, nrecs[0].Err)
+					return o
+				}
+				modes := map[string]bool{"query": callableQ, "deliver": callableD}
+				nested := func(ret []byte) bool {
+					return len(ret) > 32 && ret[31] == 1
+				}
+				for i, name := range []string{"", "deliver/nested-empty-calldata", "deliver/nested-value-transfer", "deliver/nested-calldata", "deliver/creation"} {
+					ntr := nrecs[0].Txs[i]
+					if ntr.Receipt == nil || ntr.Receipt.HasVMError {
+						o.dev("", "step %d: nested probe tx %d was not executed successfully: %+v", si, i, ntr.Res)
+						return o
+					}
+					if i == 0 {
+						continue
+					}
+					if i == 4 {
+						created := crypto.CreateAddress(chain.K(3).Addr, k3seq+4)
+						modes[name] = len(c.App.EvmKeeper.GetCode(c.CommittedCtx(), c.App.EvmKeeper.GetCodeHash(c.CommittedCtx(), created.Bytes()))) > 0
+						continue
+					}
+					r, err := decodeEthResponse(ntr.Res.Data)
+					if err != nil {
+						o.dev("", "step %d: cannot decode the response of nested probe %d: %v", si, i, err)
+						return o
+					}
+					modes[name] = nested(r.Ret)
+				}
+				for name, data := range map[string][]byte{"query/nested-empty-calldata": nil, "query/nested-calldata": {0x00}} {
+					nresp, nerr := ethCall(c, chain.K(0).Addr, &c17ProberAddr, data, nil, 2000000)
+					modes[name] = nerr == nil && !nresp.Failed() && nested(nresp.Ret)
+				}
+				for mode, got := range modes {
 					if got != want {
 						key := ""
 						if meta != nil && meta.Disabled && got {
